@@ -294,6 +294,13 @@ def cheat_census(unit, repo):
                 break
         fi = g.fnof[ln - 1] if ln - 1 < len(g.fnof) else None
         if fi is not None:
-            name = fi.qname + ' (imported contract / assumed)' if fi.trusted else fi.qname
-        out.append('%s: %s' % (d['message'][:60], name))
+            if fi.trusted and getattr(fi, 'assumed_here', False):
+                out.append('ASSUMED contract (function body outside the verifier\'s reach): %s' % fi.qname)
+            elif fi.trusted:
+                out.append('imported contract (proved in its home unit): %s' % fi.qname)
+            else:
+                out.append('%s: %s' % (d['message'][:60], fi.qname))
+            continue
+        kind = 'assume_specification (std/dependency function)' if 'assume_specification' in lines[ln - 1] or (ln < len(lines) and 'assume_specification' in lines[ln]) else 'external_body shim'
+        out.append('%s: %s' % (kind, name))
     return sorted(set(out))
